@@ -19,6 +19,9 @@
 (*   Work       exp_backoff(load_tile_coords): done; or, for a list whose  *)
 (*              upstream keeps failing (Bad), BackoffError after the last  *)
 (*              retry: THE WORKER EXITS, the list is not created           *)
+(*              (a list whose tile lock is held by another process - Lock- *)
+(*              Timeout - is tried again until the lock is free, however   *)
+(*              long that takes: it is created like any other list)        *)
 (***************************************************************************)
 EXTENDS Naturals, Sequences, FiniteSets, TLC
 
